@@ -80,6 +80,11 @@ func (p *c09prop) Plan(tier string, seed int64) []core.Segment {
 		{Kind: "glitch", N: fam},
 		{Kind: "twins", N: fam / 4},
 		{Kind: "overlap", N: 3 * tierScale(tier, 5), Chunk: 1},
+		// texts of 0.5-4 MiB: more than 64 Ki B* suffixes over all 256 byte
+		// values, recursion depths of the tandem repeat sort beyond 16
+		{Kind: "huge", N: 10 * tierScale(tier, 4), Chunk: 1},
+		// X X and X X X with |X| of 15-45 kB over 2-6 letters
+		{Kind: "tandem", N: 60 * tierScale(tier, 20), Chunk: 6},
 	}
 }
 
@@ -503,6 +508,31 @@ func (p *c09prop) Gen(kind string, idx int64, seed int64, tier string) core.Case
 			if r.Intn(8) == 0 {
 				sc.Text = staircaseText(r)
 			}
+		case "huge":
+			switch idx % 5 {
+			case 0, 1:
+				n := []int{512 << 10, 1 << 20, 700000}[r.Intn(3)] + r.Intn(1000)
+				sc = SfxCase{Text: gen.Family(r, "rand256", n, gen.Hint{}), Family: "huge:rand256"}
+			case 2:
+				n := []int{1 << 20, 2 << 20, 3 << 20}[r.Intn(3)] + r.Intn(3)*r.Intn(100000)
+				sc = SfxCase{Text: gen.Family(r, "pd", n, gen.Hint{}), Family: "huge:pd"}
+			case 3:
+				x := gen.Family(r, "text", 100000+r.Intn(250000), gen.Hint{})
+				var t []byte
+				for rep := 2 + r.Intn(2); rep > 0; rep-- {
+					t = append(t, x...)
+				}
+				sc = SfxCase{Text: t, Family: "huge:text-repeated"}
+			default:
+				f := []string{"thue", "fib", "rand2", "tworuns"}[r.Intn(4)]
+				sc = SfxCase{Text: gen.Family(r, f, 1<<20+r.Intn(3<<20), gen.Hint{}), Family: "huge:" + f}
+			}
+		case "tandem":
+			t := gen.Tandem(r, 15000+r.Intn(30000), 2+r.Intn(2), 2+r.Intn(5))
+			if r.Intn(3) == 0 {
+				t = append(t, bytes.Repeat([]byte{'A'}, r.Intn(20))...)
+			}
+			sc = SfxCase{Text: t, Family: "tandem"}
 		case "big":
 			sizes := []int{20000, 50000, 100000}
 			if tier == "thorough" {
@@ -657,6 +687,9 @@ func (p *c09prop) Run(c *core.Case, st *core.Stats) []core.Violation {
 	if n > 2000 {
 		st.Inc("texts_checked_by_linear_checker")
 	}
+	if n >= 512<<10 {
+		st.Inc("texts_of_at_least_512KiB")
+	}
 	return nil
 }
 
@@ -664,7 +697,7 @@ func init() {
 	core.Register(&c09prop{base{id: "C09", level: "exploration",
 		rule:        "exhaustive small scope (all strings over {a,b} up to length 14 (thorough 16) and over {a,b,c} up to length 8 (thorough 10)) plus seeded families (runs of two letters, periodic with glitches, random over 2..256 letters, Fibonacci, Thue-Morse, period doubling, de Bruijn, LZ-synthetic, source text, concatenations, all-256-byte-values) at lengths 0..3000, a B*-shaped family (words whose reduced rank string has runs, tandem repeats and long ramps, optionally doubled) and big texts (quick to 100 kB, thorough to 4 MiB incl. 3-fold concatenated source text); sa is pre-filled with negative garbage; oracles: naive suffix sort and naive LCP for n <= 2000, linear-time suffix array checker + independent Kasai beyond; LCP is called with sa+sainv, with sa only and with neither; non-trivial iff len(t) >= 2; distinct = distinct text",
 		assumptions: []string{"default sort thresholds only (the property is about suffix.Sort)", "which internal sorter paths ran is reported from coverage counters in the thorough tier, never part of the verdict"},
-		mandatory:   []string{"texts_sorted", "lcp_tables_checked", "texts_checked_by_linear_checker", "family:bstar", "family:all256", "overlapping_call_groups"}}})
+		mandatory:   []string{"texts_sorted", "lcp_tables_checked", "texts_checked_by_linear_checker", "family:bstar", "family:all256", "overlapping_call_groups", "texts_of_at_least_512KiB", "family:tandem"}}})
 }
 
 // ---------------------------------------------------------------- C10
